@@ -1,15 +1,31 @@
 (* Encoding of the outcome of replaying an implementation trace through CoSharedMutex.run, as a list of numbers that
    the checker reads back.  [0; i] : the model rejects event i.  Otherwise
      [1; quiescent; every coroutine is PDone; sw; sr; rpass; rsize; |rq|; |wq|; spin; rwait = 0; wprio;
-      |entered|; (c, exclusive)...; |tries|; (c, exclusive, answer)...; |grants|; sum of req; sum of got] *)
+      |entered|; (c, exclusive)...; |tries|; (c, exclusive, answer)...; |grants|; sum of req; sum of got;
+      number of completed spinlock sections; (rpass, rsize, wprio) after each of them ...]
+   The last part is compared with the values of `_readers_pass`, `_readers_size`, `_writers_prio` that the harness reads
+   from the real mutex at every release of the spinlock: the plain fields of the two sides agree section by section. *)
 From Coq Require Import List Arith Bool ZArith.
 Import ListNotations.
 From YV Require Import model.CoSharedMutex.
 
-Fixpoint run_at (s : st) (tr : list ev) (i : nat) : nat + st :=
+(* the event completes a spinlock section: a whole section, or the second half of a split one *)
+Definition ends_section (e : ev) (s' : st) : bool :=
+  match e with
+  | ERSSlow _ _ | EWAdd _ _ | EUWStore _ _ => true
+  | EWSlow _ _ _ | EUWSlow _ _ _ => negb (spin s')
+  | _ => false
+  end.
+
+Fixpoint run_at (s : st) (tr : list ev) (i : nat) (snaps : list nat) : nat + (st * list nat) :=
   match tr with
-  | [] => inr s
-  | e :: r => match step s e with Some s' => run_at s' r (S i) | None => inl i end
+  | [] => inr (s, snaps)
+  | e :: r =>
+      match step s e with
+      | Some s' =>
+          run_at s' r (S i) (if ends_section e s' then snaps ++ [rpass s'; rsize s'; wprio s'] else snaps)
+      | None => inl i
+      end
   end.
 
 Definition encb (b : bool) : nat := if b then 1 else 0.
@@ -18,11 +34,12 @@ Definition enct (l : list (nat * bool * bool)) : list nat :=
   flat_map (fun p => [fst (fst p); encb (snd (fst p)); encb (snd p)]) l.
 
 Definition obs_nat (fifo_ rfifo_ : bool) (n : nat) (tr : list ev) : list nat :=
-  match run_at (init fifo_ rfifo_ n) tr 0 with
+  match run_at (init fifo_ rfifo_ n) tr 0 [] with
   | inl i => [0; i]
-  | inr s =>
+  | inr (s, snaps) =>
       [1; encb (quiescent s); encb (forallb is_done (cos s)); sw s; sr s; rpass s; rsize s; length (rq s);
        length (wq s); encb (spin s); encb (Z.eqb (rwait s) 0); wprio s] ++
       [length (entered s)] ++ encp (entered s) ++ [length (tries s)] ++ enct (tries s) ++
-      [length (grants s); list_sum (map req (cos s)); list_sum (map got (cos s))]
+      [length (grants s); list_sum (map req (cos s)); list_sum (map got (cos s))] ++
+      [length snaps / 3] ++ snaps
   end.
